@@ -1,5 +1,6 @@
 import PW.Props.C01
 import PW.Proofs.Gather
+import PW.Proofs.KronFactor
 /-!
 # C03 — multi-subsystem operators bind to operands in the order given
 
@@ -39,6 +40,22 @@ theorem other_blocks_untouched (l : Layout.Layout) (c : Nat) (T fronts : List Na
     (hb : b ∈ l) (hwf : (Layout.allMembers l).Nodup) (hm : Layout.meets T b = false) (hf : ∀ f ∈ fronts, f ∈ T) :
     b ∈ Routing.actOp l c T fronts := Routing.actOp_bystander l c T fronts b hb hwf hm hf
 
+/-- **factor k of a product operator acts on the k-th listed operand**: `(A ⊗ B)` on the ordered
+operand list `[p, q]` is `A` on `p` after `B` on `q`, for every space and all positions `p ≠ q` -/
+theorem product_operator_factorises (dims : List Nat) (p q : Nat) (hp : p < dims.length) (hq : q < dims.length)
+    (hne : p ≠ q) (A B ρ : Tensor R) (r c : List Nat) (hr : r.length = dims.length) (hc : c.length = dims.length) :
+    Spec.applyOn dims [p, q] (Spec.kronOp A B) ρ (r ++ c)
+      = Spec.applyOn dims [p] A (Spec.applyOn dims [q] B ρ) (r ++ c) :=
+  Spec.applyOn_kron dims p q hp hq hne A B ρ r c hr hc
+
+/-- **operand order and operator axes go together**: the same operands listed in the other order,
+with the operator's axes exchanged, give the same action (so "reverse storage order" is harmless
+exactly when the operator is transposed accordingly, and only then) -/
+theorem operand_order_matches_operator_axes (dims : List Nat) (p q : Nat) (hp : p < dims.length)
+    (hq : q < dims.length) (hne : p ≠ q) (O ρ : Tensor R) (rc : List Nat) :
+    Spec.applyOn dims [q, p] (Spec.swapOp O) ρ rc = Spec.applyOn dims [p, q] O ρ rc :=
+  Spec.applyOn_swap dims p q hp hq hne O ρ rc
+
 section witness
 local instance : Conj Int := ⟨id⟩
 
@@ -70,3 +87,5 @@ end PW.Props.C03
 #print axioms PW.Props.C03.operands_are_brought_together
 #print axioms PW.Props.C03.bringing_together_is_lossless
 #print axioms PW.Props.C03.other_blocks_untouched
+#print axioms PW.Props.C03.product_operator_factorises
+#print axioms PW.Props.C03.operand_order_matches_operator_axes
